@@ -90,7 +90,12 @@ func run(rc *kernel.RunCtx) {
 	d.nKeys = tp.Range(2, 4)
 	d.cfgKind = tp.Choose(numCfg)
 	for i := 0; i < d.nKeys; i++ {
-		d.keys = append(d.keys, []byte(fmt.Sprintf("k%d", i)))
+		// Keys of different lengths (size accounting mixes keys and values).
+		key := fmt.Sprintf("k%d", i)
+		for p := i % 3; p > 0; p-- {
+			key += "_"
+		}
+		d.keys = append(d.keys, []byte(key))
 	}
 
 	// Operation lists and values are generated up front on the scheduler
@@ -190,8 +195,15 @@ func run(rc *kernel.RunCtx) {
 	curCall := make([]int64, nTasks)
 
 	var c cache.Cache
+	auditing := false
 	if d.cfgKind == cfgLRUCallback || (d.cfgKind == cfgNoLRULimits && tp.Bool(1, 2)) {
 		conf.OnDelete = func(key, val []byte) {
+			if auditing {
+				// The quiescent audit runs on the scheduler goroutine after
+				// all tasks have finished: evictions it causes are neither
+				// recorded nor used for re-entrant operations.
+				return
+			}
 			kid, vid := keyID(d, key), valID(d, val)
 			defer func() {
 				// Possibly one re-entrant operation from inside the callback.
@@ -317,6 +329,7 @@ func run(rc *kernel.RunCtx) {
 	k.Finish()
 
 	if !failed && k.HarnessErr == "" && k.Inconclusive == "" {
+		auditing = true
 		audit(c, d, stamp)
 	}
 	rc.Adopt(k)
@@ -439,6 +452,37 @@ func audit(c cache.Cache, d *runData, stamp func() int64) {
 		(d.conf.MaxSize != 0 && uint(before.Size) > d.conf.MaxSize) {
 		d.auditErr = fmt.Sprintf("at quiescence Stats %+v exceeds MaxCount=%d MaxSize=%d",
 			before, d.conf.MaxCount, d.conf.MaxSize)
+	}
+	if d.auditErr != "" {
+		return
+	}
+
+	// The cache must still work: a Set that fits (by count, by size, by
+	// element size) is not refused at quiescence and is readable afterwards,
+	// whatever the concurrent history before left behind.
+	for i, key := range d.keys {
+		if c.Get(key) != nil {
+			continue
+		}
+		val := []byte("probe")
+		add := uint(len(key) + len(val))
+		if d.maxElem != 0 && add > d.maxElem {
+			continue
+		}
+		st := c.Stats()
+		room := (d.conf.MaxCount == 0 || uint(st.Count) < d.conf.MaxCount) &&
+			(d.conf.MaxSize == 0 || uint(st.Size)+add <= d.conf.MaxSize)
+		if !room && !d.conf.EnableLRU {
+			continue
+		}
+		replaced := c.Set(key, val)
+		if got := c.Get(key); replaced || string(got) != "probe" {
+			d.auditErr = fmt.Sprintf(
+				"at quiescence Set(k%d, \"probe\") on %+v with %s returned replaced=%v and a following Get returned %q: a Set that fits was refused or lost",
+				i, st, confString(d), replaced, got)
+		}
+
+		break
 	}
 }
 
